@@ -11,6 +11,7 @@ import StamModel.Driver.Wj
 import StamModel.Driver.Cc
 import StamModel.Driver.Tid
 import StamModel.Driver.Hs
+import StamModel.Driver.Sq
 /-
   Line-protocol driver: one request per line on stdin, one answer per line on stdout.
   Built as the `stamdriver` executable (core Lean only).
@@ -34,6 +35,8 @@ def step (line : String) : String :=
   | "tid" :: args => tid args
   | "hs" :: args => hs args
   | "lim" :: args => lim args
+  | "sq" :: args => sq args
+  | "sqspec" :: args => sqspec args
   | ["reset"] => "ok"
   | _ => "bad-op"
 
